@@ -1,7 +1,7 @@
 (* C07 — ITS ABI decoder: round-trip, canonical acceptance, no misread on arbitrary bytes.
    Property theorems only; proofs are in Proofs/SolAbiDec.v. *)
 From Coq Require Import String List NArith Lia.
-From Ax Require Import Lib.Bytes Lib.SolAbi Model.ItsPayloads Proofs.SolAbiEnc Proofs.SolAbiDec Gen.Generated.
+From Ax Require Import Lib.Bytes Lib.SolAbi Model.ItsPayloads Proofs.SolAbiEnc Proofs.SolAbiDec Proofs.SolAbiSize Gen.Generated.
 Import ListNotations.
 Open Scope N_scope.
 
@@ -17,6 +17,15 @@ Theorem c07_roundtrip : forall toks out,
   enc_impl toks = Some out -> dec_impl (map type_of toks) out = Some toks.
 Proof. exact dec_impl_enc_impl. Qed.
 Print Assumptions c07_roundtrip.
+
+(* consequence of the round trip: two well-formed messages of one shape never share their wire bytes *)
+Theorem c07_encoding_injective : forall toks1 toks2 out,
+  Forall wf_token toks1 -> Forall wf_token toks2 ->
+  spec_size toks1 < 2 ^ 32 -> spec_size toks2 < 2 ^ 32 ->
+  map type_of toks1 = map type_of toks2 ->
+  enc_impl toks1 = Some out -> enc_impl toks2 = Some out -> toks1 = toks2.
+Proof. exact enc_impl_injective. Qed.
+Print Assumptions c07_encoding_injective.
 
 Theorem c07_canonical_accepted : forall toks out,
   Forall wf_token toks -> spec_size toks < 2 ^ 32 ->
@@ -116,3 +125,6 @@ Check c07_decode_exact : forall tys data, dec_impl tys data = dec_spec tys data.
 Check c07_roundtrip : forall toks out, Forall wf_token toks -> spec_size toks < 2 ^ 32 ->
   enc_impl toks = Some out -> dec_impl (map type_of toks) out = Some toks.
 Check c07_struct_exact : forall k data, dec_struct k data = dec_struct_spec k data.
+Check c07_encoding_injective : forall toks1 toks2 out, Forall wf_token toks1 -> Forall wf_token toks2 ->
+  spec_size toks1 < 2 ^ 32 -> spec_size toks2 < 2 ^ 32 -> map type_of toks1 = map type_of toks2 ->
+  enc_impl toks1 = Some out -> enc_impl toks2 = Some out -> toks1 = toks2.
